@@ -98,7 +98,7 @@ def check(prop, tier, seed, relock=False, only=None, jobs=None):
     if relock:
         # slow queries are the unstable ones: a clause whose discharge needs more than
         # SLOW_S seconds on the pinned tree is not claimed (it stays in the evidence as generated-not-claimed)
-        SLOW_S = float(os.environ.get("VERIF_SLOW_S", "4"))
+        SLOW_S = float(os.environ.get("VERIF_SLOW_S", "8"))
         # `#no_exception` obligations exist only on paths where the explorer could not rule an
         # exception path out by feasibility alone; their presence is path-search dependent, so they
         # are never part of the claim (an exception on a feasible path is reported through the
